@@ -127,10 +127,18 @@ func handle(r *Req) (resp Resp) {
 	case "parse":
 		nodes, err := parser.ParseStatement(r.Stmt)
 		d := make([]string, len(nodes))
+		links := ""
 		for i, n := range nodes {
 			d[i] = sx.DumpNode(n, 0)
+			if links == "" {
+				links = sx.ParentLinks(n, 0)
+			}
 		}
-		return Resp{"err": err.ErrorCode, "nodes": d}
+		resp := Resp{"err": err.ErrorCode, "nodes": d}
+		if links != "" {
+			resp["parent_links"] = links
+		}
+		return resp
 	case "tab":
 		setTabGlobals(r)
 		res, err := endpoints.ConvertIGScriptToTabularOutput(r.Orig, r.Stmt, r.Id, dflt(r.Fmt, tabular.OUTPUT_TYPE_CSV), "", true, r.Hdr,
